@@ -1,6 +1,8 @@
 import CLModel.Proofs.Primary
 import CLModel.Model.Issuance
 import CLModel.Proofs.KeyProof
+import CLModel.Proofs.ZnRefine
+import CLModel.Proofs.OpsRelIssuance
 import CLModel.Proofs.Guards
 import CLModel.Proofs.WitnessSig
 import Mathlib.Tactic.Linarith
@@ -326,5 +328,34 @@ theorem witness_sig_equations_from_source : Gen.witnessSigPairings =
       "cred_rev_pub_key.h_cap", "!_.is_unity()"]] := by decide
 
 end revocation_signature
+
+
+section keyproof_executable
+
+/-- **the key-correctness proof is complete in the executable group**: `key_proof_complete`
+transferred along `Zn.znOps_refines` to what `cldrv` runs (stream `keyforge`): for an integer key
+that represents (`PKRel`) a key `Z = xz • S`, `R_k = xr_k • S` over `Additive (ZMod N)ˣ`, the
+reference issuer's proof computed with integers modulo `N` is accepted by the holder's check
+computed with integers modulo `N`. -/
+theorem key_proof_complete_executable (N : ℕ) (hN : 1 < N) (H : List ByteArray → ℤ)
+    (pk : PubKey ℤ) (pk' : PubKey (Zn.U N)) (hpk : PKRel (Zn.Rel N) pk pk')
+    (xz xzTilde : ℤ) (covered : List (String × ℤ × ℤ)) (hz : pk'.z = xz • pk'.s)
+    (hcov : CoveredOk pk' covered)
+    (hall : ∀ k ∈ keys pk.r, k ∈ covered.map (·.1) ∨ k = "master_secret") :
+    ∃ p, newKeyProof (Zn.znOps N) H pk xz xzTilde covered = .ok p ∧
+      checkKeyProof (Zn.znOps N) H pk p = .ok true := by
+  have ho := Zn.znOps_refines hN
+  rw [keys_rel hpk.r] at hall
+  obtain ⟨p, h1, h2⟩ := key_proof_complete (Zn.encU N) H pk' xz xzTilde covered hz hcov hall
+  exact ⟨p, by rw [newKeyProof_rel ho H hpk, h1], by rw [checkKeyProof_rel ho H hpk, h2]⟩
+
+/-- **the holder's verdict on any key proof does not depend on the representation**: for every
+proof document (honest or forged) the executable check and the proof-group check agree -/
+theorem key_check_verdict_refines (N : ℕ) (hN : 1 < N) (H : List ByteArray → ℤ)
+    (pk : PubKey ℤ) (pk' : PubKey (Zn.U N)) (hpk : PKRel (Zn.Rel N) pk pk') (p : KeyProof) :
+    checkKeyProof (Zn.znOps N) H pk p = checkKeyProof (addOps (Zn.encU N)) H pk' p :=
+  checkKeyProof_rel (Zn.znOps_refines hN) H hpk p
+
+end keyproof_executable
 
 end CL.C05
